@@ -152,7 +152,7 @@ func c10intRing(r *h.Rand) []P {
 func init() {
 	h.Register(&h.Monitor{
 		ID: "C10",
-		Rule: "integer rings of 3..12 vertices with |v| <= 2^20 (local extents 10, 100, 5000, 2^19 around a random base point; star-shaped and arbitrary vertex lists) in every rotation, reversed and translated by integer vectors, with lattice query points (vertices, edge midpoints, nearby lattice points); validated polygons with holes of either winding, multi-polygons, collections with lower-dimensional members; line strings, multi line strings and multi points for length/count weighted centroids; general-position float rings compared within a relative 1e-9; boxes with one corner coordinate moved, every segment of the 5x5 grid against every point of the 7x7 grid, points and multi points (no area, no length). " +
+		Rule: "integer rings of 3..12 vertices with |v| <= 2^20 (local extents 10, 100, 5000, 2^19 around a random base point; star-shaped and arbitrary vertex lists) in every rotation, reversed and translated by integer vectors, with lattice query points (vertices, edge midpoints, nearby lattice points); validated polygons with holes of either winding, multi-polygons, collections with lower-dimensional members; line strings, multi line strings and multi points for length/count weighted centroids; general-position float rings of 3..48 vertices compared within a relative 1e-9; boxes with one corner coordinate moved, every segment of the 5x5 grid against every point of the 7x7 grid, points and multi points (no area, no length). " +
 			"non-trivial = ring of non-zero area (exact); distinct = hash of the vertices",
 		MinNontrivial: h.Fixed(10000, 500000),
 		Assumptions: []string{
@@ -807,7 +807,12 @@ func init() {
 						ox, oy = r.Uniform(-1, 1)*math.Pow(10, float64(r.Range(5, 8))), r.Uniform(-1, 1)*math.Pow(10, float64(r.Range(5, 8)))
 						c.Count("far_from_origin_rings", 1)
 					}
-					open := gen.Star(r, r.Range(3, 12), ox, oy, 0.3*sc, sc, 0)
+					nv := r.Range(3, 12)
+					if r.P(1, 3) {
+						nv = r.Range(13, 48) // beyond any small-input threshold, with float coordinates and distances below 1
+						c.Count("float_rings_of_more_than_12_vertices", 1)
+					}
+					open := gen.Star(r, nv, ox, oy, 0.3*sc, sc, 0)
 					closed := gen.Close(open)
 					ring := pToRing(closed)
 					cxE, cyE, a2 := exactCentroid(open)
